@@ -282,7 +282,7 @@ func instrumentFile(fset *token.FileSet, af *ast.File, src []byte, pkgVars map[s
 			case *ast.SelectorExpr:
 				if id, ok := v.X.(*ast.Ident); ok && syncName != "" && id.Name == syncName && id.Obj == nil {
 					switch v.Sel.Name {
-					case "Cond", "WaitGroup", "Map", "NewCond", "OnceFunc", "OnceValue", "OnceValues":
+					case "Cond", "WaitGroup", "NewCond", "OnceValue", "OnceValues":
 						note(v.Pos(), "sync."+v.Sel.Name)
 					}
 				}
@@ -303,7 +303,7 @@ func instrumentFile(fset *token.FileSet, af *ast.File, src []byte, pkgVars map[s
 			case *ast.SelectorExpr:
 				if id, ok := v.X.(*ast.Ident); ok && syncName != "" && id.Name == syncName {
 					switch v.Sel.Name {
-					case "Cond", "WaitGroup", "Map":
+					case "Cond", "WaitGroup":
 						note(v.Pos(), "sync."+v.Sel.Name)
 					}
 				}
